@@ -754,3 +754,116 @@ Proof.
       * destruct (validate_regular p t) as [|[]]; discriminate.
       * destruct (voters_of (sens_of p) (v0 :: vs)); discriminate.
 Qed.
+
+(** * The statement of the property at Prop level (audit follow-up) *)
+
+Definition same_subject_in (l : list (Z * acert)) (q : Z * acert) : Prop :=
+  exists r, In r l /\ c_subject (snd q) = c_subject (snd r).
+Definition kept (l : list (Z * acert)) (q : Z * acert) : Prop :=
+  exists r, In r l /\ c_subject (snd q) = c_subject (snd r) /\ c_raw (snd q) = c_raw (snd r).
+Definition replaced (l : list (Z * acert)) (q : Z * acert) : Prop :=
+  exists r, In r l /\ c_subject (snd q) = c_subject (snd r) /\ c_raw (snd q) <> c_raw (snd r).
+(** pairwise distinct certificates (by position in their TRC), each properly signed *)
+Definition signed_distinct (sis : list sinfo) (L : list (Z * acert)) : Prop :=
+  NoDup (map fst L) /\ forall q, In q L -> properly_signed sis (snd q).
+
+Lemma kept_in_iff l q : kept_in l q = true <-> kept l q.
+Proof.
+  unfold kept_in, kept. rewrite existsb_exists. split; intros [r [Hr E]]; exists r.
+  - apply andb_true_iff in E as [E1 E2]. apply name_eqb_eq in E1. apply Z.eqb_eq in E2. auto.
+  - destruct E as [E1 E2]. split; [assumption|]. rewrite E1, name_eqb_refl, E2, Z.eqb_refl. reflexivity.
+Qed.
+
+Lemma replaced_by_iff l q : replaced_by l q = true <-> replaced l q.
+Proof.
+  unfold replaced_by, replaced. rewrite existsb_exists. split; intros [r [Hr E]]; exists r.
+  - apply andb_true_iff in E as [E1 E2]. apply name_eqb_eq in E1. apply negb_true_iff in E2.
+    repeat split; try assumption. lia.
+  - destruct E as [E1 E2]. split; [assumption|]. rewrite E1, name_eqb_refl. cbn.
+    apply negb_true_iff. lia.
+Qed.
+
+Lemma same_subjects_iff a b :
+  same_subjects a b = true <->
+  (forall q, In q a -> same_subject_in b q) /\ (forall q, In q b -> same_subject_in a q).
+Proof.
+  unfold same_subjects, same_subject_in. rewrite andb_true_iff, !forallb_forall. split.
+  - intros [H1 H2]. split; intros q Hq.
+    + apply H1, existsb_exists in Hq as [r [Hr E]]. apply name_eqb_eq in E. eauto.
+    + apply H2, existsb_exists in Hq as [r [Hr E]]. apply name_eqb_eq in E. eauto.
+  - intros [H1 H2]. split; intros q Hq; apply existsb_exists.
+    + destruct (H1 q Hq) as [r [Hr E]]. exists r. split; [assumption|]. rewrite E. apply name_eqb_refl.
+    + destruct (H2 q Hq) as [r [Hr E]]. exists r. split; [assumption|]. rewrite E. apply name_eqb_refl.
+Qed.
+
+Lemma all_signed_distinct sis L : all_signed sis L = true <-> signed_distinct sis L.
+Proof. apply all_signed_iff. Qed.
+
+Definition votes_in (m : list (Z * acert)) (votes : list Z) : Prop :=
+  forall v, In v votes -> exists c, In (v, c) m.
+
+Lemma forallb_mem_idx m votes : forallb (mem_idx m) votes = true -> votes_in m votes.
+Proof.
+  rewrite forallb_forall. intros H v Hv. apply H, mem_idx_iff in Hv as [c Hc].
+  exists c. now apply lookup_in.
+Qed.
+
+(** the regular-update clause of the property *)
+Record regular_update_prop (p t : trc) (sis : list sinfo) : Prop := mk_rup {
+  rup_votes : votes_in (reg_of p) (t_votes t);
+  rup_voters_signed : signed_distinct sis (pick (reg_of p) (t_votes t));
+  rup_quorum : t_quorum p = t_quorum t;
+  rup_core : t_core p = t_core t;
+  rup_auth : t_auth p = t_auth t;
+  rup_sens_kept : forall q, In q (sens_of t) -> kept (sens_of p) q;
+  rup_sens_none_removed : forall q, In q (sens_of p) -> kept (sens_of t) q;
+  rup_root_none_removed : forall q, In q (root_of p) -> same_subject_in (root_of t) q;
+  rup_root_none_added : forall q, In q (root_of t) -> same_subject_in (root_of p) q;
+  rup_reg_none_removed : forall q, In q (reg_of p) -> same_subject_in (reg_of t) q;
+  rup_reg_none_added : forall q, In q (reg_of t) -> same_subject_in (reg_of p) q;
+  rup_replaced_voted : forall q, In q (reg_of p) -> replaced (reg_of t) q -> In (fst q) (t_votes t);
+  rup_replaced_roots_signed :
+    signed_distinct sis (filter (replaced_by (root_of t)) (root_of p))
+}.
+
+Lemma regular_b_prop p t sis : regular_b p t sis = true -> regular_update_prop p t sis.
+Proof.
+  unfold regular_b. intros H. split_ands.
+  repeat match goal with H : same_subjects _ _ = true |- _ => apply same_subjects_iff in H; destruct H end.
+  repeat match goal with H : all_signed _ _ = true |- _ => apply all_signed_distinct in H end.
+  repeat match goal with H : zlist_eqb _ _ = true |- _ => apply zlist_eqb_eq in H end.
+  repeat match goal with H : forallb (kept_in _) _ = true |- _ => rewrite forallb_forall in H end.
+  constructor; try assumption; try lia.
+  - now apply forallb_mem_idx.
+  - intros q Hq. apply kept_in_iff. auto.
+  - intros q Hq. apply kept_in_iff. auto.
+  - intros q Hq Hr.
+    match goal with H : forallb (fun q => negb (replaced_by _ q) || _) _ = true |- _ =>
+      rewrite forallb_forall in H; specialize (H q Hq) end.
+    apply replaced_by_iff in Hr. rewrite Hr in *. cbn in *.
+    now apply (existsb_eqb_in Z.eqb zeqb_iff).
+Qed.
+
+Definition update_prop (p t : trc) (sis : list sinfo) : Prop :=
+  is_base t = false /\
+  t_isd t = t_isd p /\ t_base t = t_base p /\ t_serial t = t_serial p + 1 /\ t_ntr t = t_ntr p /\
+  trc_rules t /\ t_quorum p <= len (t_votes t) /\
+  signed_distinct sis (newly_introduced p t) /\
+  ((votes_in (sens_of p) (t_votes t) /\ signed_distinct sis (pick (sens_of p) (t_votes t))) \/
+   regular_update_prop p t sis).
+
+Theorem update_spec_b_prop p t sis : update_spec_b p t sis = true -> update_prop p t sis.
+Proof.
+  unfold update_spec_b, update_common_b. intros H. split_ands.
+  match goal with H : rules_b t = true |- _ => apply rules_b_iff in H end.
+  match goal with H : all_signed _ (newly_introduced _ _) = true |- _ => apply all_signed_distinct in H end.
+  match goal with H : Bool.eqb _ _ = true |- _ => apply eqb_prop in H end.
+  unfold update_prop.
+  split; [destruct (is_base t); [discriminate|reflexivity]|].
+  split; [lia|]. split; [lia|]. split; [lia|]. split; [symmetry; assumption|].
+  split; [assumption|]. split; [lia|]. split; [assumption|].
+  match goal with H : _ || _ = true |- _ => apply orb_true_iff in H as [S|R] end.
+  - left. unfold sensitive_b in S. apply andb_true_iff in S as [S1 S2].
+    split; [now apply forallb_mem_idx|now apply all_signed_distinct].
+  - right. now apply regular_b_prop.
+Qed.
